@@ -94,6 +94,22 @@ func evalC15c(c c15cCase) (f *Failure, nontrivial bool) {
 		}
 		r.Net.SetRefuse(true)
 		r.Net.CutAll()
+		if strings.HasPrefix(c.Reopen, "restart-down") {
+			// real clock: the instants of the round that follows are counted from the moment the manager noticed the loss (over long-polling that
+			// can be tens of milliseconds after the cut), so wait for its close event before the clock of the case starts
+			for i := 0; i < 2000; i++ {
+				mu.Lock()
+				noticed := false
+				for _, e := range events {
+					noticed = noticed || strings.HasPrefix(e, "close:")
+				}
+				mu.Unlock()
+				if noticed {
+					break
+				}
+				time.Sleep(time.Millisecond)
+			}
+		}
 		time.Sleep(time.Duration(c.CloseAtUs) * time.Microsecond)
 		m.Close()
 		closedAt := time.Since(start)
@@ -231,14 +247,14 @@ func TestC15RC_RestartWhileDown(t *testing.T) {
 		c.MaxMs = c.DelayMs * rapid.SampledFrom([]int{1, 2}).Draw(t, "maxFactor")
 		c.GapUs = rapid.SampledFrom([]int{0, 1, 1000, c.DelayMs * 500, c.MaxMs * 2000}).Draw(t, "gap")
 		c.CloseAtUs = rapid.IntRange(0, c.Attempts*c.MaxMs*1000).Draw(t, "closeAtDown") // while the first round is still running
-		// Keep the Close 3 ms of real time away from the instants at which the running round makes its attempts (delay, delay + min(2 x delay, max), ...):
+		// Keep the Close 5 ms of real time away from the instants at which the running round makes its attempts (delay, delay + min(2 x delay, max), ...):
 		// the manager reports its events on goroutines of their own, and what the old round reported just before the Close cannot be told from
 		// what was reported just after it.
 		at := 0
 		for i, dl := 0, c.DelayMs; i < 4; i, dl = i+1, min(2*dl, c.MaxMs) {
 			at += dl * 1000
-			if c.CloseAtUs > at-3000 && c.CloseAtUs < at+3000 {
-				c.CloseAtUs = at + 3500
+			if c.CloseAtUs > at-5000 && c.CloseAtUs < at+5000 {
+				c.CloseAtUs = at + 5500
 			}
 		}
 		ev.Case(c, true, c.Transport+","+c.Reopen)
